@@ -87,7 +87,10 @@ func (m *mismatch) summary() string {
 	}
 	pre := ""
 	if strings.HasPrefix(m.c.kind, "abort") {
-		pre = "family section aborted at: "
+		pre = "family section ended before: "
+	}
+	if m.got == "!panic" {
+		pre = "the family panicked at: "
 	}
 	return fmt.Sprintf("%s%s: Go/spec %q, compiled program %q\nfamily (space %s): %s", pre, what, m.c.want, m.got, t.sp.Label, famText(t))
 }
